@@ -27,6 +27,30 @@ pub mod heapless {
 
     impl<const N: usize> Vec<u8, N> {
 
+        /// heapless 0.7 `Vec::resize_default`: Err(()) iff new_len > capacity (vector unchanged); otherwise the
+        /// vector is truncated, or extended with `u8::default()` = 0, to exactly new_len elements.
+        #[verifier::external_body]
+        pub fn resize_default(&mut self, new_len: usize) -> (r: Result<(), ()>)
+            ensures
+                new_len > N ==> r is Err && final(self)@ == old(self)@,
+                new_len <= N ==> r is Ok && final(self)@.len() == new_len
+                    && (forall|i: int| 0 <= i < new_len && i < old(self)@.len() ==> final(self)@[i] == old(self)@[i])
+                    && (forall|i: int| old(self)@.len() <= i < new_len ==> final(self)@[i] == 0u8),
+        { unimplemented!() }
+
+        /// `<[u8]>::split_first_mut` reached through DerefMut: the first element and the rest, both mutably; what
+        /// is written through them is what the vector holds afterwards.
+        #[verifier::external_body]
+        pub fn split_first_mut(&mut self) -> (r: Option<(&mut u8, &mut [u8])>)
+            ensures
+                old(self)@.len() == 0 ==> r is None && final(self)@ == old(self)@,
+                old(self)@.len() > 0 ==> r is Some
+                    && *(r->Some_0.0) == old(self)@[0]
+                    && (r->Some_0.1)@ == old(self)@.subrange(1, old(self)@.len() as int)
+                    && final(r->Some_0.1)@.len() == old(self)@.len() - 1
+                    && final(self)@ == seq![*final(r->Some_0.0)] + final(r->Some_0.1)@,
+        { unimplemented!() }
+
         /// type invariant of heapless::Vec (assumed): the length never exceeds the capacity
         #[verifier::external_body]
         pub broadcast proof fn len_le_capacity(&self)
